@@ -32,6 +32,8 @@ def gen_graph(rng, idx):
             es = [(a, b), (b, a), (a, b), (a, a), (b, b)] + [(x, x) for x in items[2:5]]
         else:
             es = [(rng.choice(items), rng.choice(items)) for _ in range(len(items))]
+        if not es:
+            es = [(base, base + 1)]          # (a clique over equal items, a random graph of self-loops only: keep one edge)
         for a, b in es:
             issuers = [rng.randrange(n)] if rng.random() < 0.7 else list(range(n))[:rng.choice([2, n])]   # the same edge from several ranks
             for r in issuers:
